@@ -141,13 +141,22 @@ theorem plug_uses_default_options (f : PlugFlags) :
     (plugPlan f).defineComponents = true ∧ (plugPlan f).validate = true := by
   constructor <;> rfl
 
-/-- the plug packages are registered in argument order under the documented names when no two
-    plugs share a file stem (each group has one member) -/
+/-- the plug packages are registered in argument order under the documented names
+    `plug:<file stem>` when no two plugs share a file stem -/
+theorem plug_order_is_argument_order (f : PlugFlags) (h : (f.plugs.map stemOf).Nodup) :
+    (plugPlan f).packages = f.plugs.map (fun p => ("plug:".toList ++ stemOf p, p)) := by
+  have hg : groupByStem f.plugs = f.plugs.map (fun p => (stemOf p, [p])) := by
+    have := groupByStem_distinct f.plugs [] (by simpa using h)
+    simpa [groupByStem] using this
+  simp only [plugPlan, plugPlanWith, id, hg, List.flatMap_map]
+  exact singleton_groups f.plugs
+
+/-- (instance of the above, stated for two plugs) -/
 theorem plug_order_is_argument_order_two (a b : Str) (socket : Str) (h : stemOf a ≠ stemOf b) :
     (plugPlan { plugs := [a, b], socket, wat := false, output := none }).packages =
       [("plug:".toList ++ stemOf a, a), ("plug:".toList ++ stemOf b, b)] := by
   have hne : (stemOf a == stemOf b) = false := by simp [h]
-  simp [plugPlan, plugPlanWith, groupByStem, amGet, hne, groupPackages, List.range, List.range.loop]
+  simp [plugPlan, plugPlanWith, groupByStem, groupStep, amGet, hne, groupPackages, List.range, List.range.loop]
 
 def exPlug : PlugFlags :=
   { plugs := ["x/name.wasm".toList, "name.wasm".toList, "other.wasm".toList]
@@ -200,5 +209,60 @@ example : documentedTargetsSuccess { component := [], wit := [], world := none }
 theorem parse_exit_zero_iff (json : Option Tok) : (parseRun generated json).exit = 0 ↔ json.isSome = true := by
   have hexit : generated.failureExit = 1 := by decide
   cases json <;> simp [parseRun, Cli.failure, hexit]
+
+
+/-! ### the package resolution pipeline (`PackageResolver::resolve`, src/lib.rs) -/
+
+section
+variable {κ σ β ε₁ ε₂ : Type} [DecidableEq κ]
+
+/-- packages found on the file system (`--deps-dir` / `--dep`) are never asked of the registry -/
+theorem registry_sees_only_missing (keys : List (κ × σ)) (found : List (κ × β)) :
+    ∀ k ∈ retainMissing keys found, k.1 ∉ found.map (·.1) := by
+  intro k hk hm
+  simp only [retainMissing, List.mem_filter, Bool.not_eq_true', List.any_eq_false, beq_iff_eq] at hk
+  obtain ⟨p, hp, hpk⟩ := List.mem_map.1 hm
+  exact hk.2 p hp hpk
+
+/-- without a registry: the result is the file-system result when every key was found, and
+    otherwise `UnknownPackage` for the first key (in request order) that was not -/
+theorem no_registry_unknown_package (fs : List (κ × σ) → Except ε₁ (List (κ × β))) (keys : List (κ × σ))
+    (found : List (κ × β)) (hfs : fs keys = .ok found) :
+    resolvePackages (ε₂ := ε₂) fs none keys =
+      match retainMissing keys found with
+      | [] => .ok found
+      | (k, sp) :: _ => .error (.unknownPackage k sp) := by
+  simp only [resolvePackages, hfs, finishResolve]
+  cases retainMissing keys found with
+  | nil => rfl
+  | cons k _ => obtain ⟨a, b⟩ := k; rfl
+
+/-- a registry that answers for every key it is asked about (C20 `no_key_dropped`) makes the
+    pipeline complete: the result holds the file-system packages followed by the registry's -/
+theorem pipeline_complete (fs : List (κ × σ) → Except ε₁ (List (κ × β)))
+    (reg : List (κ × σ) → Except ε₂ (List (κ × β))) (keys : List (κ × σ))
+    (found more : List (κ × β)) (hfs : fs keys = .ok found)
+    (hreg : reg (retainMissing keys found) = .ok more)
+    (hall : ∀ k ∈ retainMissing keys found, k.1 ∈ more.map (·.1)) :
+    resolvePackages fs (some reg) keys = .ok (if (retainMissing keys found).isEmpty then found else found ++ more) := by
+  simp only [resolvePackages, hfs]
+  by_cases he : (retainMissing keys found).isEmpty = true
+  · simp only [he, if_true]
+    have : retainMissing keys found = [] := by simpa using he
+    simp [this, finishResolve]
+  · simp only [he, Bool.false_eq_true, if_false, hreg]
+    have hnone : retainMissing (retainMissing keys found) more = [] := by
+      simp only [retainMissing, List.filter_eq_nil_iff, List.mem_filter]
+      intro k hk
+      have := hall k (by simpa [retainMissing, List.mem_filter] using hk)
+      obtain ⟨p, hp, hpk⟩ := List.mem_map.1 this
+      simp only [Bool.not_eq_true', Bool.not_eq_false, List.any_eq_true, beq_iff_eq]
+      exact ⟨p, hp, hpk⟩
+    simp [hnone, finishResolve]
+
+example : resolvePackages (κ := Nat) (σ := Nat) (β := Nat) (ε₁ := Unit) (ε₂ := Unit)
+    (fun _ => .ok [(1, 10)]) none [(1, 0), (2, 0)] = .error (.unknownPackage 2 0) := by rfl
+
+end
 
 end Wac.Props.C19
